@@ -1229,6 +1229,55 @@ impl std::error::Error for Buffer8Error {
     }
 }
 
+/// Verification hooks: pass-throughs to the private bit-copy kernels.
+/// Add-only; off by default.
+#[cfg(feature = "verif-hooks")]
+pub mod verif_hooks {
+    use super::*;
+
+    pub fn right_shift_1(
+        inner: &Arc<[u8]>,
+        bit_offset: usize,
+        new_bit: bool,
+    ) -> (Arc<[u8]>, usize) {
+        super::right_shift_1(inner, bit_offset, new_bit)
+    }
+
+    pub fn copy_bits(
+        src: &[u8],
+        src_offset: usize,
+        dst: &mut [u8],
+        dst_offset: usize,
+        nbits: usize,
+    ) {
+        super::copy_bits(src, src_offset, dst, dst_offset, nbits)
+    }
+
+    pub fn product(
+        left: Option<(&Arc<[u8]>, usize)>,
+        left_bit_length: usize,
+        right: Option<(&Arc<[u8]>, usize)>,
+        right_bit_length: usize,
+    ) -> (Arc<[u8]>, usize) {
+        super::product(left, left_bit_length, right, right_bit_length)
+    }
+
+    /// Build a value from raw parts (buffer, bit offset, type), as sub-value
+    /// extraction from a shared buffer does.
+    pub fn value_from_raw_parts(inner: Arc<[u8]>, bit_offset: usize, ty: Arc<Final>) -> Value {
+        Value {
+            inner,
+            bit_offset,
+            ty,
+        }
+    }
+
+    /// Raw parts of a value: (buffer, bit offset).
+    pub fn value_raw_parts(value: &Value) -> (&Arc<[u8]>, usize) {
+        (&value.inner, value.bit_offset)
+    }
+}
+
 #[cfg(test)]
 mod tests {
     use super::*;
